@@ -23,3 +23,6 @@ def rules(ctx):
     S.c01_r2_grow(ctx)
     S.c01_r4_non_durable(ctx)
     S.refcount_rules(ctx)
+    S.c13_rules(ctx)
+    S.c06_r1_freed_merged(ctx)
+    S.c07_rules(ctx)
